@@ -59,3 +59,10 @@ Theorem C18_history_bytes : forall ws st,
     forall i, nth_error (flat st') i = byte_after ws (nth_error (flat st) i) i.
 Proof. exact write_many_bytes. Qed.
 Print Assumptions C18_history_bytes.
+(* non-vacuity of [byte_after]: two overlapping writes; the later one wins where both cover,
+   the earlier one where only it covers, the old value elsewhere *)
+Example C18_history_bytes_nonvacuous :
+  let ws := [(2, [7; 8; 9]); (3, [5])] in
+  byte_after ws (Some 0) 2%nat = Some 7 /\ byte_after ws (Some 0) 3%nat = Some 5 /\
+  byte_after ws (Some 0) 4%nat = Some 9 /\ byte_after ws (Some 0) 5%nat = Some 0.
+Proof. cbv zeta. repeat split; reflexivity. Qed.
